@@ -270,18 +270,28 @@ func TestC18Large(t *testing.T) { decLargeProp(t, "C18", true) }
 // patternWriter checks what a Decoder hands out against the periodic stream.
 type patternWriter struct {
 	pat []byte
+	big []byte // the pattern repeated
 	pos int64
 	bad string
 }
 
 func (w *patternWriter) Write(p []byte) (int, error) {
-	for i, c := range p {
-		if w.bad != "" {
-			break
+	period := int64(len(w.pat))
+	for len(w.big) < 1<<16+2*len(w.pat) {
+		w.big = append(w.big, w.pat...)
+	}
+	for off := 0; off < len(p) && w.bad == ""; {
+		n := minInt(len(p)-off, 1<<16)
+		start := int((w.pos + int64(off)) % period)
+		if !bytes.Equal(p[off:off+n], w.big[start:start+n]) {
+			for i := 0; i < n; i++ {
+				if c := p[off+i]; c != w.big[start+i] {
+					w.bad = fmt.Sprintf("byte at stream offset %d is %#x, the stream has %#x there", w.pos+int64(off+i), c, w.big[start+i])
+					break
+				}
+			}
 		}
-		if c != w.pat[(w.pos+int64(i))%int64(len(w.pat))] {
-			w.bad = fmt.Sprintf("byte at stream offset %d is %#x, the stream has %#x there", w.pos+int64(i), c, w.pat[(w.pos+int64(i))%int64(len(w.pat))])
-		}
+		off += n
 	}
 	w.pos += int64(len(p))
 	return len(p), nil
